@@ -186,6 +186,45 @@ Definition C18_states_reached : Prop :=
     Forall (fun x => snd x = ROk) (firstn k (fk_run cfg s0 h)) ->
     reaches cfg s0 (firstn k h) (all_events (firstn k (fk_run cfg s0 h))) sk.
 
+(* ---------------------------------------------------------------- 5. the monitor of the check accepts *)
+
+(* the cases that meet every hypothesis: a configured LIB (exclusive or inclusive), New / Undo / Irreversible in the
+   filter, a history of the class moving_scope_b, and recorded queries that cover the ids and the heights of the
+   history (the monitor can only judge what was asked) *)
+Definition c18_moving_thm_scope (k : fk_case) : bool :=
+  match k_mode k with
+  | LExcl r0 | LIncl r0 =>
+      filt_nu k && filt_irr k && moving_scope_b r0 (k_hist k) &&
+      forallb (fun b => memN (bid b) (k_qi k) && memN (bnum b) (k_qh k)) (k_hist k)
+  | LNone => false
+  end.
+
+(* [C18_full] of Spec/C18_Spec.v on those cases: every observation that corresponds to the model - events, results,
+   head information and ALL recorded lookups after every block, any handler oracle - passes the boolean form of all
+   five clauses of C18 that the check evaluates on the implementation (c18_prop: bound after a LIB move, retention by
+   hash and by number at or above the LIB, canonical lookup on the consumer's chain, head information = last New,
+   lowest servable number = first block of the contiguous retained chain, no lookup crash) *)
+Definition C18_moving_lib : Prop :=
+  forall k, c18_moving_thm_scope k = true -> fk_corresponds k = true -> c18_prop k = true.
+
+(* in particular the model's own run with all lookups recorded: it corresponds to itself *)
+Fixpoint model_obs (cfg : config) (s : fstate) (h : list block) (qh qi : list N) : list obs :=
+  match h with
+  | [] => []
+  | b :: rest =>
+      let '(s', evs, r) := fk_step cfg s b in
+      mkObs evs r (head_info s') (head_num s') (Some (model_look s' qh qi)) ::
+      match r with ROk => model_obs cfg s' rest qh qi | _ => [] end
+  end.
+
+Definition model_case (cfg : config) (m : libmode) (h : list block) (qh qi : list N) : fk_case :=
+  mkFkCase cfg m h (model_obs cfg (fs_init m) h qh qi) qh qi.
+
+Definition C18_moving_own_run : Prop :=
+  forall cfg m h qh qi,
+    c18_moving_thm_scope (model_case cfg m h qh qi) = true ->
+    fk_corresponds (model_case cfg m h qh qi) = true /\ c18_prop (model_case cfg m h qh qi) = true.
+
 (* ---------------------------------------------------------------- the full stream-level clauses of C18 *)
 
 Definition C18_moving_full : Prop :=
